@@ -522,13 +522,14 @@ def run(chk):
     if len(params_of(eb)) < 2:
         raise AnchorMissing("Task.error_behavior(self, <default>)")
     dpar = params_of(eb)[1]
-    for dflt, ignores in ((True, False), (True, True), (False, False), (False, True)):
-        def atom(n, env, dflt=dflt, ignores=ignores):
+    # the level is "ignore" only for the literal 'non-fatal'; every other value — None (unset) but also the empty string a templated track may produce — does not ignore
+    for dflt, ignores, level in ((True, False, None), (True, True, "non-fatal"), (False, False, None), (False, True, "non-fatal"), (True, False, ""), (False, False, "")):
+        def atom(n, env, dflt=dflt, ignores=ignores, level=level):
             # atoms are evaluated on representative values (any orientation / operator: ==, !=, in (...)), not recognised by their text
             if isinstance(n, ast.BoolOp) or (isinstance(n, ast.UnaryOp) and isinstance(n.op, ast.Not)):
                 return None
             try:
-                return bool(_ev(n, {dpar: "abort" if dflt else "continue", "self": Record(ignore_response_error_level="non-fatal" if ignores else None)}))
+                return bool(_ev(n, {dpar: "abort" if dflt else "continue", "self": Record(ignore_response_error_level=level)}))
             except (CannotEval, TypeError, ValueError):
                 return None
 
@@ -539,8 +540,8 @@ def run(chk):
             break
         got = out.value.value if out.kind == "return" and isinstance(out.value, ast.Constant) else None
         want = "abort" if (dflt and not ignores) else "continue"
-        chk.ob("O9.9", f"error behaviour when on-error={'abort' if dflt else 'continue'} and the task {'ignores' if ignores else 'does not ignore'} non-fatal errors", got == want, eb, f"{got}; expected {want}",
-               key=f"esrally/track/track.py:Task.error_behavior:{dflt}|{ignores}")
+        chk.ob("O9.9", f"error behaviour when on-error={'abort' if dflt else 'continue'} and the task {'ignores' if ignores else 'does not ignore'} non-fatal errors" + (" (level = '')" if level == "" else ""),
+               got == want, eb, f"{got}; expected {want}", key=f"esrally/track/track.py:Task.error_behavior:{dflt}|{ignores}" + ("|empty" if level == "" else ""))
     adp = drv.methods(drv.cls("AsyncIoAdapter")).get("run")
     exi = drv.methods(ex).get("__init__")
     if adp is None or exi is None:
